@@ -1,7 +1,50 @@
+import AuModel.GetValue
+import AuModel.UnitKey
 import Driver.Util
+import Driver.Cmd.C02
+
+/-! Driver commands for C11.
+
+  getvalue <T> <magpack>   →  outcome=<ok|nonint|root|nofit> val=<integer | num/den | inf | nan | ->
+                               T ∈ i8 … u64, f32, f64, f80
+  classify <magpack>       →  isint=<0|1> israt=<0|1> num=<pack> den=<pack> ipart=<pack>
+-/
 open Au
 
-def dispatchC11 : List String → Option String
-  | _ => none
+def outcomeStr : MagOutcome → String
+  | .ok => "ok" | .errNonInteger => "nonint" | .errInvalidRoot => "root" | .errCannotFit => "nofit"
 
-/-! Driver commands for C11. -/
+def fltStr : Flt → String
+  | .nan => "nan"
+  | .inf s => if s then "-inf" else "inf"
+  | .fin q => s!"{q.num}/{q.den}"
+
+def cmdGetValue (args : List String) : String :=
+  match args with
+  | [ts, ms] =>
+    match parseMag? ms with
+    | none => "bad-op"
+    | some m =>
+      match IntTy.ofName? ts, FltTy.ofName? ts with
+      | some t, _ =>
+        let (o, v) := getValueResultInt t m
+        s!"outcome={outcomeStr o} val={if o == .ok then toString v else "-"}"
+      | none, some f =>
+        let (o, v) := getValueResultFlt f m
+        s!"outcome={outcomeStr o} val={if o == .ok then fltStr v else "-"}"
+      | none, none => "bad-op"
+  | _ => "bad-op"
+
+def cmdClassify (args : List String) : String :=
+  match args with
+  | [ms] =>
+    match parseMag? ms with
+    | none => "bad-op"
+    | some m =>
+      s!"isint={b01 (Mag.isIntegerMag m)} israt={b01 (Mag.isRationalMag m)} num={magKey (Mag.numerator m)} den={magKey (Mag.denominator m)} ipart={magKey (Mag.integerPart m)}"
+  | _ => "bad-op"
+
+def dispatchC11 : List String → Option String
+  | "getvalue" :: args => some (cmdGetValue args)
+  | "classify" :: args => some (cmdClassify args)
+  | _ => none
